@@ -11,7 +11,7 @@ CHECKS = {
    note="trusts rowan's text()/text_range(); explores short exhaustive + structured random inputs, not all strings",
    technique="property-based testing: round-trip oracle over exhaustive token-class sequences and grammar/mutation generators"),
  "C02": dict(cat="exploration", design="§5 C02",
-   text="Totality oracle (no panic/abort via catch_unwind + supervisor, deterministic step budget from the verif hook, linear work bound 24*(max(raw lexical tokens, tree tokens, lines)+1)+256, well-formed error ranges/messages) over C01's space (which includes 15 nesting shapes up to depth 250, 10^4-fold token repetition and every non-nesting lexeme repeated 150000 times on a 512 KiB stack) plus unterminated constructs at every token boundary; family time-scaling: ten repeated units (statements with and without syntax errors, garbage, error-riddled values), each parsed at n=600 and 16n repetitions - thread CPU time may grow at most 64-fold unless the long parse stays under two seconds (two rounds, best of three for the short text).",
+   text="Totality oracle (no panic/abort via catch_unwind + supervisor, deterministic step budget from the verif hook, linear work bound 24*(max(raw lexical tokens, tree tokens, lines)+1)+256, well-formed error ranges/messages) over C01's space (which includes 15 nesting shapes up to depth 250, 10^4-fold token repetition and every non-nesting lexeme repeated 150000 times on a 512 KiB stack) plus unterminated constructs at every token boundary; family time-scaling: sixteen repeated units (statements with and without syntax errors, garbage, error-riddled values, lines that leave a code block, comment, string or conditional open), each parsed at n=600 and 16n repetitions - thread CPU time may grow at most 64-fold unless the long parse stays under two seconds (two rounds, best of three for the short text).",
    note="step counter hook counts lexer tokens and opened nodes; 256 MiB worker stacks (the server's 2 MiB stacks are not asserted); nesting > 256 skipped as documented non-goal",
    technique="property-based testing / fuzzing with a deterministic step-budget hook"),
  "C10": dict(cat="exploration", design="§5 C10",
